@@ -502,6 +502,10 @@ pub struct SeqStep {
     pub reuse_own_quote: bool,
     /// afterwards the record is dropped from the store (pruned), so the next upload is new data again
     pub remove_after: bool,
+    /// right before this upload the node drops one of the other payees from its routing table (as it
+    /// does with a peer it found bad): that payee is no longer a peer the node knows as close
+    #[serde(default)]
+    pub evict_co_payee: bool,
 }
 
 #[derive(Clone, Debug, Serialize, Deserialize)]
@@ -520,8 +524,9 @@ fn seq_strategy() -> BoxedStrategy<SeqCase> {
         rpc,
         prop_oneof![3 => Just(true), 1 => Just(false)],
         prop_oneof![2 => Just(true), 1 => Just(false)],
+        prop_oneof![4 => Just(false), 1 => Just(true)],
     )
-        .prop_map(|(payload_valid, own_paid, others_paid, rpc, reuse_own_quote, remove_after)| SeqStep { payload_valid, own_paid, others_paid, rpc, reuse_own_quote, remove_after });
+        .prop_map(|(payload_valid, own_paid, others_paid, rpc, reuse_own_quote, remove_after, evict_co_payee)| SeqStep { payload_valid, own_paid, others_paid, rpc, reuse_own_quote, remove_after, evict_co_payee });
     (prop_oneof![3 => Just(Kind::Pad), 1 => Just(Kind::Chunk), 1 => Just(Kind::Tx), 1 => Just(Kind::Reg)], any::<u8>(), proptest::collection::vec(step, 2..vh_core::depth(5, 8)))
         .prop_map(|(kind, seed, steps)| SeqCase { kind, seed, steps })
         .boxed()
@@ -533,6 +538,7 @@ fn check_sequence(case: &SeqCase, ctx: &mut Ctx) {
     let me = cl.nodes[0].peer;
     let mut own_quote: Option<ant_evm::PaymentQuote> = None;
     let (mut judged_new, mut after_confirmed, mut reused) = (0, 0, 0);
+    let mut evictions = 0;
     // this node's quote has been confirmed by the contract in an earlier step
     let mut confirmed_before = false;
     for (i, st) in case.steps.iter().enumerate() {
@@ -569,6 +575,15 @@ fn check_sequence(case: &SeqCase, ctx: &mut Ctx) {
                 Rpc::ConnectionClosed => 4,
             };
         }
+        let mut evicted = false;
+        if st.evict_co_payee {
+            if let Some(p) = proof.peer_quotes.iter().filter_map(|(p, _)| p.to_peer_id().ok()).find(|p| *p != me) {
+                let d = &mut cl.nodes[0].driver;
+                cl.rt.block_on(async move { d.verif_remove_peer(&p) });
+                evicted = true;
+                evictions += 1;
+            }
+        }
         let payload_valid = st.payload_valid || case.kind != Kind::Pad;
         let rec = if payload_valid {
             (pl.build)(Some(&proof))
@@ -594,6 +609,13 @@ fn check_sequence(case: &SeqCase, ctx: &mut Ctx) {
             if confirmed_before {
                 after_confirmed += 1;
             }
+            if held_after && evicted {
+                ctx.fail(
+                    "stored_with_a_payee_the_node_has_dropped_from_its_routing_table",
+                    format!("step {i}: {:?} stored new data although one payee had just been removed from the routing table (result {res:?})", case.kind),
+                );
+                return;
+            }
             if held_after && !(confirmed && payload_valid) {
                 let what = if !payload_valid { "payload_not_owner_signed" } else if st.rpc != Rpc::Ok { "contract_unreachable" } else if !st.own_paid { "own_quote_unpaid" } else { "another_payees_quote_unpaid" };
                 ctx.fail(
@@ -602,7 +624,7 @@ fn check_sequence(case: &SeqCase, ctx: &mut Ctx) {
                 );
                 return;
             }
-            if !held_after && confirmed && payload_valid {
+            if !held_after && confirmed && payload_valid && !evicted {
                 ctx.precondition_failed("valid_paid_upload_rejected(sequence)", format!("step {i}: {res:?}"));
             }
             if !held_after && res.is_ok() {
@@ -626,6 +648,7 @@ fn check_sequence(case: &SeqCase, ctx: &mut Ctx) {
     }
     ctx.label(format!("kind_{:?}", case.kind));
     ctx.label_if(reused > 0, "own_quote_re_sent");
+    ctx.label_if(evictions > 0, "payee_dropped_from_routing_table_before_an_upload");
     ctx.label_if(after_confirmed > 0, "new_data_upload_after_own_quote_was_confirmed");
     ctx.nontrivial_if(after_confirmed > 0 && reused > 0 && judged_new >= 2);
 }
